@@ -89,14 +89,14 @@ theorem smallPath_total (mode : Mode) (signX : Nat) (arr : Bytes) (hlen : arr.le
     (e : Int) (h1 : -2147483648 ≤ e) (h2 : e < 2147483648) : (smallPath mode signX arr n e).isSome = true := by
   unfold smallPath
   split
-  · rfl
+  · exact Option.isSome_some
   · split
     · obtain ⟨v, hv⟩ := readRun_total arr hlen 0 n (by omega) (by omega)
-      rw [hv]
+      simp only [hv, Option.bind_eq_bind, Option.bind_some]
       exact pack_total _ _ _ _ _ h1 h2
     · obtain ⟨v, hv⟩ := readRun_total arr hlen 0 (n - 17) (by omega) (by omega)
       obtain ⟨w, hw⟩ := readRun_total arr hlen (n - 17) n (by omega) (by omega)
-      rw [hv, hw]
+      simp only [hv, hw, Option.bind_eq_bind, Option.bind_some]
       exact pack_total _ _ _ _ _ h1 h2
 
 #exit
